@@ -329,7 +329,7 @@ func c06Gen(r *rand.Rand, tier string) []string {
 	// ---- round 3
 	nClose, nBorrow, nZero, nCoin, nFailEng, nManyInst := 10, 14, 4, 12, 8, 2
 	if tier == "thorough" {
-		nClose, nBorrow, nZero, nCoin, nFailEng, nManyInst = 300, 600, 40, 400, 200, 12
+		nClose, nBorrow, nZero, nCoin, nFailEng, nManyInst = 200, 300, 20, 300, 120, 8
 	}
 	// the sink's Close fails (after closing) — alone, and together with dropped samples (a queue of 1-2 under 4-32
 	// reporters): the encoder aggregator's error must carry both; phout ignores it
@@ -499,7 +499,7 @@ func c06Gen(r *rand.Rand, tier string) []string {
 		// pool is shooting; and a run that simply ends
 		nFault, nNone := 1, 1
 		if tier == "thorough" {
-			nFault, nNone = 8, 4
+			nFault, nNone = 4, 2
 		}
 		for i := 0; i < nFault; i++ {
 			res := ""
